@@ -904,7 +904,7 @@ def c06_native_replay(flip, swap, req_model=None):
 	return ("REPRODUCED" in p.stdout), p.stdout[-3000:]
 
 
-def run_c06_transform(prop, tier):
+def run_c06_transform(prop, tier, kinds=("spec", "lookup", "stream_coord", "stream_box")):
 	"""returns dict(rc, queries, samples, inconclusive, violations, lines, funcs, seconds)"""
 	out = {"rc": 0, "queries": [], "samples": [], "inconclusive": [], "violations": 0, "lines": [], "funcs": []}
 	try:
@@ -931,7 +931,7 @@ def run_c06_transform(prop, tier):
 				sm = [t for t in smap[key] if t[0] in ("flip", "swap")] if has_map else []
 				sample = {"flip_y": flip, "swap_xy": swap, "requested_pyramid": has_req, "coverage_calls": c, "lookup_calls": l, "stream_box_calls": sb, "stream_coord_calls": sm, "stream_installs_coord_map": has_map}
 				out["samples"].append(sample)
-				for kind in ("spec", "lookup", "stream_coord", "stream_box"):
+				for kind in kinds:
 					smt = c06_query(kind, c, l, sb, sm, has_req)
 					verdicts = []
 					for s in solvers:
